@@ -8,6 +8,22 @@ VERIF = os.path.dirname(os.path.dirname(os.path.abspath(__file__)))
 KNOWN_PATH = os.path.join(VERIF, "known_findings.json")
 
 
+_INVENTORY = None
+
+
+def load_inventory():
+    """{property: [obligation keys produced on the pinned tree at the quick tier]} (sa/data/obligation_keys.json, written by tools_reference.py)"""
+    global _INVENTORY
+    if _INVENTORY is None:
+        path = os.path.join(VERIF, "sa", "data", "obligation_keys.json")
+        try:
+            with open(path) as f:
+                _INVENTORY = json.load(f)
+        except (OSError, ValueError):
+            _INVENTORY = {}
+    return _INVENTORY
+
+
 def load_known():
     if not os.path.exists(KNOWN_PATH):
         return {"findings": [], "fixed": []}
@@ -114,6 +130,16 @@ class Check:
             for o in unlisted:
                 print(f"  {o.where}: [{o.rule}] {o.msg}\n      key: {o.key}")
             print(f"VIOLATION property={self.pid} replay={replay}")
+        # inventory guard: every obligation that was decided on the pinned tree must still be produced (holding or failing).  One that has
+        # silently disappeared means a rule no longer sees its construct (the analysis went blind there) -- not a verdict, so fail closed.
+        if not unlisted and os.environ.get("VERIF_KEY_INVENTORY", "1") != "0":
+            inv = load_inventory().get(self.pid)
+            if inv:
+                have = {o.key for o in self.obligations}
+                gone = [k for k in inv if k not in have]
+                if gone:
+                    raise AnalysisError(f"{len(gone)} obligation(s) decided on the pinned tree are no longer produced (the rule does not find its construct any more): "
+                                        + "; ".join(gone[:4]) + (" ..." if len(gone) > 4 else ""))
         self._write_evidence(len(unlisted), listed, stale)
         n = len(self.obligations)
         print(f"{self.pid} [{self.tier}] obligations={n} discharged={n - len(failing)} "
